@@ -127,11 +127,16 @@ func runC09(c *Ctx) {
 	}
 	sort.Slice(names, func(i, j int) bool { return names[i].String() < names[j].String() })
 	nWrites := 0
+	doneIn := map[ssa.Instruction]bool{}
 	for _, fn := range names {
 		if p.isTestFn(fn) || isFixturePkg(fnPkgPath(fn)) {
 			continue
 		}
-		for _, in := range instrs(fn) {
+		for _, in := range ownInstrs(fn) { // every reachable function (helpers included) is in `names` itself
+			if doneIn[in] {
+				continue
+			}
+			doneIn[in] = true
 			switch st := in.(type) {
 			case *ssa.Store:
 				// (c) globals
